@@ -67,7 +67,8 @@ bool startREPL() {
         }
 
         for (const std::string &keyword : multilineKeywords) {
-            if (code.starts_with(keyword)) {
+            if (code.starts_with(keyword)
+                && (code.size() == keyword.size() || !(isalnum((unsigned char) code[keyword.size()]) || code[keyword.size()] == '_'))) {
                 if (keyword == "TYPE" && code.find("=") != std::string::npos) break;
                 std::string line = " ";
                 while (line.size() > 0) {
